@@ -82,8 +82,8 @@ func (d *driver) abstractTrace(calls []string, cache string) map[string][]sysEve
 	}
 	groups := map[string][]sysEvent{}
 	add := func(e sysEvent) { g := dirOf(e.rel); groups[g] = append(groups[g], e) }
-	wfd := map[string]bool{}            // fd number -> opened for writing (below the cache)
-	lastStat := map[string]sysEvent{}   // per directory: last stat of an advertised-looking name
+	wfd := map[string]bool{}          // fd number -> opened for writing (below the cache)
+	lastStat := map[string]sysEvent{} // per directory: last stat of an advertised-looking name
 	for _, c := range calls {
 		m := reCall.FindStringSubmatch(c)
 		if m == nil {
